@@ -726,8 +726,8 @@ FAM.update({
     'C09': dict(cfg=(None, None), budget=(0, 0), units=[1], hcfg=None, extra=gen_c09_extra, props={'C09', 'C01'}),
     'C13': dict(cfg=('H2Server_c10_q.cfg', 'H2Server_c10_t.cfg'), budget=(300, 8000), units=[1],
                 hcfg=lambda u: {'maxConc': 2, 'unit': u, 'initWin': 2, 'maxBody': 3}, extra=gen_c13_extra, props={'C13'}),
-    'C14': dict(cfg=('H2Server_c01_q.cfg', 'H2Server_c01_t.cfg'), budget=(300, 8000), units=[1, 9000],
-                hcfg=lambda u: {'maxConc': 2, 'unit': u}, extra=gen_c14_extra, props={'C14'}),
+    'C14': dict(cfg=('H2Server_c01_q.cfg', 'H2Server_c01_t.cfg'), budget=(450, 8000), units=[1, 9000],
+                hcfg=lambda u: {'maxConc': 2, 'unit': u}, extra=gen_c14_extra, props={'C14'}, cfgs_all=('H2Server_c14_q.cfg',)),
     'C17': dict(cfg=('H2Server_c10_q.cfg', 'H2Server_c10_t.cfg'), budget=(300, 8000), units=[1],
                 hcfg=lambda u: {'maxConc': 2, 'unit': u, 'initWin': 2, 'maxBody': 3}, extra=gen_c17_extra, props={'C17'}),
     'C18': dict(cfg=(None, None), budget=(0, 0), units=[1], hcfg=None, extra=gen_c18_extra,
@@ -800,6 +800,8 @@ def run(ctx, pid):
     thorough = ctx.tier == 'thorough'
     cfg = fam['cfg'][1 if thorough else 0]
     hists = srvfam.gen_from_model(ctx, cfg, workers=None if thorough else 1) if cfg else []
+    for c2 in fam.get('cfgs_all', ()):        # further configurations of the same model, both tiers
+        hists += srvfam.gen_from_model(ctx, c2, workers=None if thorough else 2)
     wide = set()
     if thorough:
         for c2 in fam.get('cfgs_t', ()):      # further bounded configurations of the same model (three streams), thorough tier only
